@@ -35,20 +35,17 @@ def parseEntities : Nat → List String → Option (List Entity)
     | _ => none
   | _, _ => none
 
-def knownClass : String := "unescapedLabelValue"
-
-/-- a violation is a known finding exactly when some label value is outside `safeValue` -/
+/-- a violation; if some label value is outside `safeValue` it is a regression of the label-value
+escaping repaired in /repo c80dd26 (former finding F-C36, class `unescapedLabelValue`) -/
 def violation (labelVals : List Bytes) (msg : String) : String :=
   if labelVals.all safeValue then "FAIL " ++ msg
-  else "KNOWN " ++ knownClass ++ " " ++ msg ++
-    " (a label value contains a double quote, a backslash or a line feed and is written unescaped)"
+  else "FAIL " ++ msg ++
+    " (regression: a label value containing a double quote, a backslash or a line feed must be written escaped)"
 
 def keysOK (m : List Label) : Bool :=
   m.all (fun p => validLabelName p.1) && (m.map (·.1)).Nodup
 
-/-- model answer: the escaping renderer (Prometheus text-format rules).  A tree whose `tags` still
-writes label values verbatim differs from it exactly on values outside `safeValue`, where the spec
-verdict is `KNOWN unescapedLabelValue` (the check does not count a divergence on such lines). -/
+/-- model answer: the escaping renderer (Prometheus text-format rules) — the only renderer modelled. -/
 def pick (_impl : String) (esc _raw : Bytes) : String := Hex.encode esc
 
 def step (_ : Unit) (op impl : String) : Unit × DrvOut :=
